@@ -70,6 +70,8 @@ def corruptions(lines):
     i = idx(lambda e: e["e"] == "ctr_cleanup")
     mod("non-zero bytes at free", i, lambda e: e.__setitem__("nz", 3))
     mod("block not released", i, lambda e: e.__setitem__("lv", e["lv"] + 1))
+    i = idx(lambda e: e["e"] == "ctr_set_key")
+    mod("object state released unwiped by a call that is not cleanup", i, lambda e: e.__setitem__("nzo", 5))
     i = idx(lambda e: e["e"] == "par_crypt")
     mod("stray write reported", i, lambda e: e.__setitem__("stray", 1))
     mod("parallel output block 8 changed", i, lambda e: e["out"].__setitem__(64, e["out"][64] ^ 2))
